@@ -1136,8 +1136,12 @@ fn run_inner(
             let app2 = app.clone();
             let net2 = net.clone();
             let name = env.ctx("conn").name;
+            if let Some(d) = script.path_delays_us.first() {
+                net2.lock().unwrap().extra_delay_us.insert(i as u32, *d);
+            }
             // NAT rebinding events
             for (k, at_us) in script.rebinds.iter().enumerate() {
+                let new_delay = script.path_delays_us.get(k + 1).copied();
                 let sock = sock.clone();
                 let net3 = net2.clone();
                 let at_us = *at_us;
@@ -1156,6 +1160,9 @@ fn run_inner(
                             if h.role == Role::Client && h.idx == idx {
                                 h.addr = cur;
                             }
+                        }
+                        if let Some(d) = new_delay {
+                            n.extra_delay_us.insert(idx, d);
                         }
                         n.fire("rebind");
                     }
